@@ -77,6 +77,21 @@ func ownMnemonicProbe(dir string) (string, error) {
 		return "", err
 	}
 	seedB, pubB := b.VerifBaseSeed(), b.GetPubKey().String()
+	// the restored machine stopped and started again (between `set_seed` and the reinit operation, say)
+	restarted := ""
+	b.VerifClose()
+	b, err = airgapped.NewMachine(filepath.Join(dir, "b"))
+	if err != nil {
+		return "", err
+	}
+	b.SetEncryptionKey([]byte("pw"))
+	if err := b.InitKeys(); err != nil {
+		restarted = "the restored machine cannot load its keys after a restart: " + err.Error()
+	} else if !bytes.Equal(seedB, b.VerifBaseSeed()) {
+		restarted = "a machine restored from a mnemonic comes back from a restart with ANOTHER seed than the one it was given"
+	} else if pubB != b.GetPubKey().String() {
+		restarted = "a machine restored from a mnemonic comes back from a restart with another long-term key"
+	}
 	// the same words, spaced differently (as an operator may type them): refused, or the same seed
 	spaced := ""
 	for _, variant := range []string{strings.Replace(mnemonic, " ", "  ", 1), strings.Replace(mnemonic, " ", "\t", 1), mnemonic + "\r", "  " + mnemonic + " \n"} {
@@ -92,6 +107,8 @@ func ownMnemonicProbe(dir string) (string, error) {
 		return spaced, nil
 	}
 	switch {
+	case restarted != "":
+		return restarted, nil
 	case !bytes.Equal(seedA, seedA2) || pubA != pubA2:
 		return "the reopened machine has another seed or long-term key than before", nil
 	case !bytes.Equal(seedA, seedB):
